@@ -15,7 +15,7 @@ func init() {
 	register(&Def{
 		ID:    "C10",
 		Level: "exploration",
-		Rule: "seeded histories of 50..2000 steps on one pool allocator: get (up to 2..24 outstanding, per history; a third of the histories alternate bursts of gets with bursts of puts) / use {AppendSample x k, in-capacity Append, Write, WriteStriped, SetSample anywhere in the capacity through Slice(0,Capacity), same-type conversion into the buffer} / put of the buffer itself or of Slice(0,n) of it (each checkout put at most once) / forced double GC / get-fill-put cycles on a second pool of the same element type (where possible with another channel count and the same total length and capacity); all 13 built-in and 13 named element types; allocators with Length 0, 0<Length<Capacity, Length=Capacity and 1..8 channels; run in the plain build (sync.Pool hands a just-Put object back) and under -race (sync.Pool then drops a random quarter of the Puts); " +
+		Rule: "seeded histories of 50..2000 steps on one pool allocator (in half of the histories used through three copies of the allocator value made before its first use): get (up to 2..24 outstanding, per history; a third of the histories alternate bursts of gets with bursts of puts) / use {AppendSample x k, in-capacity Append, Write, WriteStriped, SetSample anywhere in the capacity through Slice(0,Capacity), same-type conversion into the buffer} / put of the buffer itself or of Slice(0,n) of it (each checkout put at most once) / forced double GC / get-fill-put cycles on a second pool of the same element type (where possible with another channel count and the same total length and capacity); all 13 built-in and 13 named element types; allocators with Length 0, 0<Length<Capacity, Length=Capacity and 1..8 channels; run in the plain build (sync.Pool hands a just-Put object back) and under -race (sync.Pool then drops a random quarter of the Puts); " +
 			"every Get result is compared with a fresh allocation (shape, bit depth, zero over the whole capacity through the hook) and its address interval with those of all outstanding buffers; every outstanding buffer's contents are re-verified after every step; " +
 			"distinct = distinct histories (hash of allocator + operation list); non-trivial = the history contains a Get that returned a previously Put object (identity by pinned header or storage address)",
 		Assume: []string{"which object a Get returns is not asserted, only counted (reuse floor)", "every buffer ever seen is pinned so that addresses are never recycled by the Go allocator"},
@@ -102,7 +102,14 @@ func runC10(c *core.Ctx) {
 
 func c10History(c *core.Ctx, r *core.Rand, t *dyn.TypeOps, al signal.Allocator, steps int, caseID string, hi int) {
 	inst := "Pool[" + t.Name + "]"
-	pool := t.PoolAlloc(al)
+	pool0 := t.PoolAlloc(al)
+	// in half of the histories the allocator value is copied before its first
+	// use and every Get / Put goes through one of the copies (they are one pool)
+	pools := []dyn.Pool{pool0}
+	if hi%2 == 1 {
+		pools = append(pools, pool0.Copy(), pool0.Copy())
+		c.Obs("histories_through_copies_of_the_allocator_value", 1)
+	}
 	pair := t.SelfPair
 	conv := sameTypeConv(t)
 	var out []*c10out
@@ -235,7 +242,7 @@ func c10History(c *core.Ctx, r *core.Rand, t *dyn.TypeOps, al signal.Allocator, 
 		switch {
 		case op < 3 && len(out) < maxOut: // get
 			var g dyn.Buf
-			if p, msg := core.Guard(func() { g = pool.Get() }); p {
+			if p, msg := core.Guard(func() { g = pools[r.Intn(len(pools))].Get() }); p {
 				c.Violate(inst+"|panic", caseID, "Get panicked: "+msg, detail())
 				return
 			}
@@ -381,7 +388,7 @@ func c10History(c *core.Ctx, r *core.Rand, t *dyn.TypeOps, al signal.Allocator, 
 				what = fmt.Sprintf("put(slice(0,%d))", n)
 				c.Obs("puts_of_slice_from_frame_0", 1)
 			}
-			if p, msg := core.Guard(func() { pool.Put(pb) }); p {
+			if p, msg := core.Guard(func() { pools[r.Intn(len(pools))].Put(pb) }); p {
 				c.Violate(inst+"|panic", caseID, fmt.Sprintf("%s panicked: %s", what, msg), detail())
 				return
 			}
